@@ -173,6 +173,10 @@ def c07(tier, seed):
     # code -> spec: stamps of the executions recorded from the repository's own back-tests (EnvTrace.tla, clause stamp)
     from . import envtrace_check
     envtrace_check.validate_repo_tests(rep, tier, {"stamp"})
+    # code -> spec at the level of the whole environment: long random episodes of a real TradingEnv on a dyadic grid,
+    # validated line by line by TLC (EnvLedgerTrace.tla)
+    from . import envledger_check
+    envledger_check.validate(rep, "C07", 8 if tier == "quick" else 120, seed, tier)
     return rep.finish()
 
 
